@@ -17,12 +17,12 @@ def run(r):
     thorough = r.tier == 'thorough'
     r.model_check('RayRelMC', 'RayRel_thorough.cfg' if thorough else 'RayRel.cfg')
     r.exhaustive = True
-    s = tlc.simulate('RayRelMC', 'RayRel_sim.cfg', 'C01/sim', num=(1600 if thorough else 320), depth=(9 if thorough else 6), seed=r.seed + 1)
+    s = tlc.simulate('RayRelMC', 'RayRel_sim.cfg', 'C01/sim', num=(3200 if thorough else 960), depth=(9 if thorough else 6), seed=r.seed + 1)
     r.transitions += s.generated
     for kind, tracer in COMBOS:
         behs = s.behaviours if tracer == 'specialized' else s.behaviours[:(160 if thorough else 32)]
         r.replay(None, behs, 'RayRel', '%s/%s' % (kind, tracer), parallel=16, factory=RayRelDriver, factory_kw=dict(kind=kind, tracer=tracer))
-    for op in ('Swap', 'Shift', 'Turn', 'ScaleUp', 'ScaleDown'):
+    for op in ('Swap', 'Shift', 'Turn', 'ScaleUp', 'ScaleDown', 'Stretch'):
         if not r.actions_seen.get(op):
             raise tlc.TLCError('vacuity guard: op %s never replayed' % op)
     r.assumptions += ['ten base endpoint pairs (shallow, deep, vertical, equal depth, far shallow, nearly vertical), scale factors 1/4 .. 4',
